@@ -149,16 +149,18 @@ def check(ctx):
     r3 = ctx.rule('R3', 'type tag -> ffi type: width and signedness agree', floor=20)
     gf = ctx.c.tu(GF)
     tf = gf.func('gi_type_tag_get_ffi_type_internal')
-    sws = [n for n in C.walk(gf.body(tf)) if n.get('kind') == 'SwitchStmt']
+    # gated summary of the mapping function: for every tag, the values it can return when the switch operand equals that tag
+    # (insensitive to case order, fall-through, if-chains and conditional expressions)
+    TF = cgsa.summarise(ctx, GF, 'gi_type_tag_get_ffi_type_internal')
+    tag_atoms = [a_ for a_ in TF.atoms() if re.search(r'== GI_TYPE_TAG_\w+$', a_)]
+    all_tags = sorted(set(re.search(r'== (GI_TYPE_TAG_\w+)$', a_).group(1) for a_ in tag_atoms))
+    if len(all_tags) < 20:
+        raise AnalysisError('gi_type_tag_get_ffi_type_internal: only %d type tags distinguished' % len(all_tags))
     table = {}
-    for labels, stmts in C.switch_cases(gf, sws[0]):
-        rets = []
-        for s_ in stmts:
-            for n in C.walk(s_):
-                if n.get('kind') == 'ReturnStmt' and C.kids(n):
-                    rets.append(ns(gf.text_of(C.kids(n)[0])))
-        for l in labels:
-            table[l] = rets
+    for tg_ in all_tags:
+        val = dict((a_, a_.endswith('== ' + tg_)) for a_ in tag_atoms)
+        table[tg_] = sorted(set(re.sub(r'\s', '', e.value) for e in gsa.find(TF, 'return') if e.fn == 'gi_type_tag_get_ffi_type_internal' and gsa.can_hold(e.cond, val)
+                                and e.value not in ('0', 'NULL')))
     EXPECT = {'BOOLEAN': ['&ffi_type_uint'], 'FLOAT': ['&ffi_type_float'], 'DOUBLE': ['&ffi_type_double'], 'UNICHAR': ['&ffi_type_uint32'],
               'GTYPE': ['&ffi_type_uint64'], 'VOID': ['&ffi_type_pointer', '&ffi_type_void'], 'INTERFACE': ['&ffi_type_pointer', '&ffi_type_sint32']}
     for tag in ('UTF8', 'FILENAME', 'ARRAY', 'GLIST', 'GSLIST', 'GHASH', 'ERROR'):
@@ -184,7 +186,8 @@ def check(ctx):
     CE = cgsa.summarise(ctx, GO, 'compute_enum_storage_type')
     cs = CE.func
     st_eff = [e for e in CE.effects if e.kind == 'store' and e.target.endswith('->storage_type')]
-    watoms = [a_ for a_ in CE.atoms() if re.match(r'^sizeof\(\w+\) == \d+$', a_)]
+    # the storage type is chosen by comparing the width (sizeof of a test enum, or a table column holding it) with 1/2/4/8
+    watoms = sorted(set(a_ for e in st_eff for a_ in gsa.atoms(e.cond) if re.match(r'^.+ == (1|2|4|8)$', a_)))
     for w, bits in ((1, 8), (2, 16), (4, 32), (8, 64)):
         val = dict((a_, a_.endswith('== %d' % w)) for a_ in watoms)
         got = sorted(set(e.value for e in st_eff if gsa.can_hold(e.cond, val)))
